@@ -609,3 +609,76 @@ func VerifC16PassthroughTarget() {
 	vassert(rerr != nil, "an option designated to a pass-through node or to a path below it is an error")
 	vassert(len(rec) == 0, "and reaches no node")
 }
+
+// A path into a nested graph is checked whether or not this run reaches the nested graph: designating an unknown
+// node of it, a path below one of its components, or an option of the wrong type is an error of the call also when
+// a branch routes around the nested graph (and on a nested graph inside a nested graph).
+func VerifC16UnreachedNested() {
+	ctx := context.Background()
+	vcfg("fifo", 1)
+	var rec []c16Recv
+	lamA := func(key string) *Lambda {
+		return InvokableLambdaWithOption(func(ctx context.Context, in map[string]any, opts ...c16OptA) (map[string]any, error) {
+			for _, o := range opts {
+				rec = append(rec, c16Recv{key, o.id, o.val})
+			}
+			return in, nil
+		})
+	}
+	inner := NewGraph[map[string]any, map[string]any]()
+	_ = inner.AddLambdaNode("x", lamA("G/H/x"))
+	_ = inner.AddEdge(START, "x")
+	_ = inner.AddEdge("x", END)
+	sub := NewGraph[map[string]any, map[string]any]()
+	_ = sub.AddLambdaNode("L2", lamA("G/L2"))
+	_ = sub.AddGraphNode("H", inner, WithOutputKey("h"))
+	_ = sub.AddEdge(START, "L2")
+	_ = sub.AddEdge("L2", "H")
+	_ = sub.AddEdge("H", END)
+	g := NewGraph[map[string]any, map[string]any]()
+	_ = g.AddLambdaNode("L1", lamA("L1"))
+	_ = g.AddGraphNode("G", sub)
+	_ = g.AddLambdaNode("other", lamA("other"))
+	_ = g.AddEdge(START, "L1")
+	takeSub := vchoose("takeSub", 2) == 1
+	_ = g.AddBranch("L1", NewGraphBranch(func(ctx context.Context, in map[string]any) (string, error) {
+		if takeSub {
+			return "G", nil
+		}
+		return "other", nil
+	}, map[string]bool{"G": true, "other": true}))
+	_ = g.AddEdge("G", END)
+	_ = g.AddEdge("other", END)
+	r, err := g.Compile(ctx)
+	vassert(err == nil, "graph compiles")
+	kind := vchoose("kind", 6)
+	var opt Option
+	bad := true
+	switch kind {
+	case 0:
+		opt = WithLambdaOption(c16OptA{1, 1}).DesignateNodeWithPath(NewNodePath("G", "ghost"))
+	case 1:
+		opt = WithLambdaOption(c16OptA{1, 1}).DesignateNodeWithPath(NewNodePath("G", "L2", "deeper"))
+	case 2:
+		opt = WithLambdaOption(c16OptB{1, 1}).DesignateNodeWithPath(NewNodePath("G", "L2"))
+	case 3:
+		opt = WithLambdaOption(c16OptA{1, 1}).DesignateNodeWithPath(NewNodePath("G", "H", "ghost"))
+	case 4:
+		opt = WithLambdaOption(c16OptA{1, 1}).DesignateNodeWithPath(NewNodePath("G", "H", "x"))
+		bad = false
+	case 5:
+		opt = WithLambdaOption(c16OptA{1, 1}).DesignateNodeWithPath(NewNodePath("G", "L2"))
+		bad = false
+	}
+	_, rerr := r.Invoke(ctx, map[string]any{"in": 1}, opt)
+	if bad {
+		vassert(rerr != nil, "an ill-designated path into a nested graph is an error whether or not the run reaches the nested graph")
+		return
+	}
+	vassert(rerr == nil, "a valid path into a nested graph is accepted whether or not the run reaches it")
+	want := 0
+	if takeSub {
+		want = 1
+	}
+	vassert(len(rec) == want, "and reaches exactly its node, when that node runs")
+}
